@@ -88,7 +88,7 @@ class _RedisConsumer(ConsumerT):
                 await asyncio.sleep(self.POLLING_WAIT)
                 continue
             key, _, params = msg
-            if params.is_overdue:
+            if params.is_overdue and self.category == MessageCategory.NORMAL:
                 await self.broker.nack(key)
                 continue
             return msg
